@@ -2,7 +2,7 @@
    behaviour).  Length and position are symbolic 64-bit numbers; file content is not modelled byte by byte. */
 #ifndef WV_C_FILE_H
 #define WV_C_FILE_H
-#define WV_FILE_OK(f) ((f)->open && (f)->pos <= (f)->len && (f)->len < (1ull << 62))
+#define WV_FILE_OK(f) ((f)->open && (f)->pos <= (f)->len && (f)->len < (1ull << 58))
 
 /* fread(p, 1, n, f): reads min(n, len - pos) bytes, advances the position, sets the EOF indicator only on a short read */
 size_t wv_fread(void *p, size_t sz, size_t n, wv_FILE *f)
